@@ -158,6 +158,223 @@ def append_iteration(prog, res):
 FORMAT_SINKS = {"vsnprintf": 2, "snprintf": 2, "vsprintf": 1, "sprintf": 1, "printf": 0, "vprintf": 0}
 
 
+def tiff_layout(prog, res, rule="R-TIFF-LAYOUT"):
+    """Structure of one directory entry as Tiff::append lays it out (a necessary
+    condition of "all offsets inside the file, no structure overlapping another,
+    the chain links the directories in order"):
+      * three writes per frame: the directory at O1, the pixels at O2, the
+        strings at O3, where O2 >= O1 + sizeof(directory) and O3 >= O2 +
+        (bytes of the image) - linear lower bounds of the defining expressions,
+        with the alignment helper proven to round up to a multiple of 8;
+      * the strip tags carry O2 and the pixel byte count, which is
+        bytes_of_frame - sizeof(struct VideoFrame); the string section is reset
+        to O3 before the tags are built; the directory's `next` is at or after
+        the end of the strings;
+      * after the writes: last_ifd_next_offset_ = O1 + offsetof(next),
+        last_offset_ = the directory's next, frame count advanced;
+      * terminate_ifd_list writes sizeof(next) zero bytes at
+        last_ifd_next_offset_; start leaves last_offset_ = sizeof(header)."""
+    from .. import congr
+    fs = [g for g in prog.all_funcs() if g.name.endswith("Tiff::append") and not g.d.get("lambda")]
+    if not fs:
+        raise AnalysisBroken("Tiff::append not found")
+    f = fs[0]
+    res.touched(f)
+    defs = congr.single_defs(f)
+
+    def var_of(e):
+        e = ir.strip(e)
+        return e if isinstance(e, dict) and e.get("k") == "var" else None
+
+    def same_var(a, b):
+        a, b = var_of(a), var_of(b)
+        return a is not None and b is not None and a["id"] == b["id"]
+    writes = []
+    for b, i, st_ in f.all_stmts():
+        for c in ir.calls_in(st_):
+            if (c.get("fn") or "").endswith("::write_"):
+                writes.append((b.id, i, st_, c))
+    writes.sort(key=lambda w: w[2].get("line", 0))
+    problems = []
+    if len(writes) != 3:
+        raise AnalysisBroken("Tiff::append: expected three writes per frame (directory, pixels, strings), found %d" % len(writes))
+    (O1, B1, N1), (O2, B2, N2), (O3, B3, N3) = [tuple(w[3]["args"][-3:]) for w in writes]
+    for nm, o in (("directory", O1), ("pixel", O2), ("string", O3)):
+        if var_of(o) is None or var_of(o)["id"] not in defs:
+            problems.append(("offsets", "the %s write's offset is not a single-definition local" % nm))
+    if problems:
+        for t, m in problems:
+            res.fail(rule, "Tiff::append layout", "%s|%s" % (rule, t), f.loc(), m)
+        return
+
+    def body(v):
+        """defining expression of a local, helper calls inlined, other locals kept as atoms"""
+        return congr.inline_expr(prog, f, defs[var_of(v)["id"]], defs={})
+
+    def check(tag, inst, ok, msg):
+        if ok:
+            res.oblige(rule, inst, True, "", f.loc())
+        else:
+            res.fail(rule, inst, "%s|%s" % (rule, tag), f.loc(), "Tiff::append: " + msg)
+    ok, lb = congr.covers(body(O2), [O1, N1])
+    check("data-after-ifd", "pixels start at or after the end of the directory", ok,
+          "the pixel section offset (%s) is not provably >= directory offset + sizeof(directory): the strip overlaps the directory" % ir.render(defs[var_of(O2)["id"]]))
+    ok, lb = congr.covers(body(O3), [O2, N2])
+    check("strings-after-data", "strings start at or after the end of the pixels", ok,
+          "the string section offset (%s) is not provably >= pixel offset + pixel bytes: the description overlaps the strip" % ir.render(defs[var_of(O3)["id"]]))
+    for nm, o in (("directory", O1), ("pixel", O2), ("string", O3)):
+        cg = congr.congruence(body(o), {})
+        check("align-" + nm, "%s offset is a multiple of 8" % nm, cg[0] % 8 == 0 and cg[1] % 8 == 0 and cg != (0, 0),
+              "the %s section offset %s is not provably 8-byte aligned (congruence %s)" % (nm, ir.render(defs[var_of(o)["id"]]), cg))
+    # pixel count
+    n2 = var_of(N2)
+    d = ir.strip(defs.get(n2["id"])) if n2 is not None else None
+    okn = isinstance(d, dict) and d.get("k") == "bin" and d.get("op") == "-" and \
+        ir.strip(d["l"]).get("k") == "mem" and ir.strip(d["l"]).get("f") == "bytes_of_frame" and \
+        ir.strip(d["r"]).get("k") == "int" and ir.strip(d["r"]).get("sizeof_r") == "VideoFrame"
+    check("pixel-count", "pixel bytes = bytes_of_frame - sizeof(struct VideoFrame)", okn,
+          "the number of pixel bytes written per frame is %s, not bytes_of_frame minus the frame header" % (ir.render(d) if d else "?"))
+    okb = isinstance(ir.strip(B2), dict) and any(y.get("k") == "mem" and y.get("f") == "data" for y in ir.walk(B2))
+    check("pixel-source", "the pixel write takes the frame's data", okb, "the pixel write does not read cur->data")
+    # tags
+    tags = {}
+    resets = []
+    for b, i, st_ in f.all_stmts():
+        for c in ir.calls_in(st_):
+            fn = (c.get("fn") or "").split("::")[-1]
+            if fn in ("strip_offsets", "strip_byte_counts") and c.get("args"):
+                tags[fn] = c["args"][-1]
+            if fn == "reset" and c.get("args"):
+                resets.append(((b.id, i), c["args"][-1]))
+    check("strip-offset", "the strip-offsets tag is the pixel write's offset", "strip_offsets" in tags and same_var(tags["strip_offsets"], O2),
+          "the StripOffsets tag does not carry the offset the pixels are written to")
+    check("strip-count", "the strip-byte-counts tag is the pixel write's length", "strip_byte_counts" in tags and same_var(tags["strip_byte_counts"], N2),
+          "the StripByteCounts tag does not carry the number of pixel bytes written")
+    loops0 = paths.natural_loops(f)
+    wl0 = paths.innermost_loop(f, writes[2][0])
+    hs0 = [h for h, bd in loops0 if wl0 and bd == wl0]
+    heads0 = hs0[0] if hs0 else None
+    okr = bool(resets) and all(same_var(a, O3) for p, a in resets) and \
+        paths.all_paths_pass(f, (heads0, -1) if heads0 is not None else "entry", {(writes[2][0], writes[2][1])},
+                             lambda q: any((c.get("fn") or "").endswith("::reset") for c in ir.calls_in(q)))[0]
+    check("strings-reset", "the string section is rebased to the string write's offset for every frame", okr,
+          "the string section is not reset to the offset the strings are written to: the description tag points elsewhere")
+    # the directory's next link: last element of the directory initialiser
+    nxt = None
+    for b, i, st_ in f.all_stmts():
+        for x in ir.walk(st_):
+            if x.get("k") in ("init", "construct") and "ifd_t" in str(x.get("t", "")) + str(x.get("r", "")):
+                el = x.get("elts") or x.get("args") or []
+                if el:
+                    last = el[-1]
+                    nxt = last.get("v") if isinstance(last, dict) and "v" in last else last
+    if nxt is not None:
+        e = congr.inline_expr(prog, f, nxt, defs={})
+        okx, lb = congr.covers(e, [y for y in ir.walk(e) if y.get("k") == "mem" and y.get("f") == "offset"][:1] or [nxt])
+        okx = okx and any(y.get("k") == "mem" and y.get("f") == "offset" for y in ir.walk(e))
+        cg = congr.congruence(e, {})
+        check("next", "the next directory starts at or after the end of the strings, 8-byte aligned", okx and cg[0] % 8 == 0 and cg[1] % 8 == 0,
+              "the directory's next link (%s) is not provably >= the end of the string section and aligned" % ir.render(nxt))
+    else:
+        check("next", "the next directory starts at or after the end of the strings, 8-byte aligned", False, "the directory initialiser was not found")
+    # bookkeeping after the writes
+    loops = paths.natural_loops(f)
+    wl = paths.innermost_loop(f, writes[2][0])
+    heads = [h for h, bd in loops if wl and bd == wl]
+    dst = {(heads[0], 0)} if heads and f.blocks[heads[0]].stmts else ({(heads[0], -1)} if heads else "exit")
+    succ = [sc["to"] for sc in f.blocks[writes[2][0]].succs if sc.get("label") == "false" and sc.get("to") is not None]
+
+    def stores(field, pred):
+        def p_(q):
+            for lv, op, rhs, w in ir.writes_of(q):
+                if (ir.ap(lv) or "").endswith(field) and pred(op, rhs):
+                    return True
+            return False
+        return p_
+
+    def link_ok(op, rhs):
+        r0 = ir.strip(rhs) if isinstance(rhs, dict) else None
+        return op == "=" and isinstance(r0, dict) and r0.get("k") == "bin" and r0.get("op") == "+" and same_var(r0["l"], O1) and \
+            ir.strip(r0["r"]).get("k") == "int" and ir.strip(N1).get("k") == "int" and ir.strip(r0["r"])["v"] == ir.strip(N1)["v"] - 8
+    for field, pred, what in (
+            ("last_ifd_next_offset_", link_ok, "last_ifd_next_offset_ = directory offset + offsetof(next)"),
+            ("last_offset_", lambda op, rhs: op == "=" and isinstance(ir.strip(rhs), dict) and ir.strip(rhs).get("k") == "mem" and ir.strip(rhs).get("f") == "next",
+             "last_offset_ = the directory's next"),
+            ("frame_count_", lambda op, rhs: op in ("++", "+="), "the frame count advances")):
+        okf = bool(succ) and dst != "exit" and all(paths.all_paths_pass(f, (t, -1), dst, stores(field, pred))[0] for t in succ)
+        check("book-" + field, "after the three writes: " + what, okf,
+              "after a frame was written the bookkeeping '%s' is skipped or different: the next directory is placed or linked wrongly" % what)
+    # the packet walk ends at the packet's end
+    from .. import linear as L
+    for g in prog.all_funcs():
+        if g.d.get("lambda") and "Tiff::append" in g.name:
+            res.touched(g)
+            an = L.Analysis(prog)
+            okw = True
+            nn = 0
+            for rv, st_ in an.run(g, L.State()):
+                if rv is None or (L.is_const(rv) and rv.get(L.ONE, 0) == 0):
+                    continue
+                nn += 1
+                o = [v for k, v in st_.cells.items() if k.endswith(":o")]
+                n_ = [v for k, v in st_.cells.items() if k.endswith(":nbytes")]
+                if len(o) != 1 or len(n_) != 1 or not st_.entails_le(L.ladd(L.lsub(o[0], n_[0]), L.lconst(1))):
+                    okw = False
+            check("walk-end", "the packet walk yields a next frame only while its offset is below the packet size", okw and nn > 0,
+                  "the walk over the frames of a packet can step to an offset that is not below the packet size: a header is read past the packet")
+    # write_ hands exactly [buf, buf + nbytes) at the given offset to file_write
+    for g in prog.all_funcs():
+        if g.name.endswith("Tiff::write_"):
+            res.touched(g)
+            fw = [(b.id, i, c) for b, i, st_ in g.all_stmts() for c in ir.calls_in(st_) if c.get("fn") == "file_write"]
+            okx = len(fw) == 1 and len(g.params) >= 3
+            if okx:
+                a = fw[0][2]["args"]
+                po, pb, pn = g.params[-3:]
+                e3 = ir.strip(a[3])
+                okx = var_of(a[1]) is not None and var_of(a[1])["id"] == po["id"] and var_of(a[2]) is not None and var_of(a[2])["id"] == pb["id"] and \
+                    isinstance(e3, dict) and e3.get("k") == "bin" and e3.get("op") == "+" and var_of(e3["l"]) is not None and var_of(e3["l"])["id"] == pb["id"] and \
+                    var_of(e3["r"]) is not None and var_of(e3["r"])["id"] == pn["id"]
+                trues = {(b.id, i) for b, i, st_ in g.all_stmts() if st_.get("k") == "ret" and not ir.is_const(st_.get("e"), 0)}
+                okx = okx and bool(trues) and paths.all_paths_pass(g, "entry", trues, lambda q: any(c.get("fn") == "file_write" for c in ir.calls_in(q)))[0]
+            check("write-extent", "write_ passes (offset, buf, buf + nbytes) to file_write on every successful path", okx,
+                  "Tiff::write_ does not hand exactly [buf, buf + nbytes) at the given offset to file_write (or reports success without writing)")
+    # the user's metadata goes on the first frame of an acquisition
+    def is_first(cn):
+        c0 = ir.strip(cn)
+        return isinstance(c0, dict) and c0.get("k") == "bin" and c0.get("op") == "==" and \
+            any((ir.ap(x) or "").endswith("frame_count_") for x in (c0["l"], c0["r"])) and any(ir.is_const(x, 0) for x in (c0["l"], c0["r"]))
+
+    def has_meta_len(cn):
+        return any(y.get("k") == "call" and (y.get("fn") or "").endswith("::length") for y in ir.walk(cn))
+    with_meta, without = [], []
+    for b, i, st_ in f.all_stmts():
+        for c in ir.calls_in(st_):
+            if (c.get("fn") or "").endswith("image_description"):
+                (with_meta if any("external_metadata_" in (ir.render(a) or "") for a in c.get("args", [])) else without).append((b.id, i))
+    okm = bool(with_meta) and bool(without)
+    for p_ in with_meta:
+        okm = okm and paths.edge_dominated(f, p_, lambda cn, lab, blk: is_first(cn) and lab == "true")[0]
+    for p_ in without:
+        okm = okm and paths.edge_dominated(f, p_, lambda cn, lab, blk: (is_first(cn) or has_meta_len(cn)) and lab == "false")[0]
+    check("metadata-first", "the user's metadata is written with the first frame of an acquisition and only with it", okm,
+          "the description carrying the user's metadata is not selected exactly for frame_count_ == 0 (with non-empty metadata)")
+    # terminate / start
+    for g in prog.all_funcs():
+        if g.name.endswith("Tiff::terminate_ifd_list"):
+            res.touched(g)
+            ws = [c for b, i, st_ in g.all_stmts() for c in ir.calls_in(st_) if (c.get("fn") or "").endswith("::write_")]
+            okt = len(ws) == 1 and (ir.ap(ws[0]["args"][-3]) or "").endswith("last_ifd_next_offset_") and ir.is_const(ws[0]["args"][-1], 8)
+            check("terminate", "terminate_ifd_list zeroes the 8-byte link at last_ifd_next_offset_", okt,
+                  "terminate_ifd_list does not write 8 bytes at last_ifd_next_offset_: the chain does not end in a zero link")
+        if g.name.endswith("Tiff::start"):
+            res.touched(g)
+            oks = any((ir.ap(lv) or "").endswith("last_offset_") and isinstance(ir.strip(rhs), dict) and ir.strip(rhs).get("k") == "int"
+                      and ir.strip(rhs).get("v") == 16 for b, i, st_ in g.all_stmts() for lv, op, rhs, w in ir.writes_of(st_))
+            check("start", "start places the first directory right after the 16-byte header", oks,
+                  "Tiff::start does not set last_offset_ to sizeof(header): the first directory is not where the header's first_ifd points")
+
+
 def format_literals(prog, res):
     """Description strings: whatever reaches the format parameter of the
     printf family in tiff.cpp is a string literal; frame ids, timestamps and the
@@ -222,6 +439,8 @@ def run(ctx, res):
         raise AnalysisBroken("Tiff::set not found")
     for g in sets:
         adopt.rule_set_adopts(prog, res, g)
+    res.guard(tiff_layout, prog, res)
+    res.require_min("R-TIFF-LAYOUT", 18)
     res.require_min("R-SET-ADOPTS", 1)
     res.require_min("FINALISE-SIM", 2)
     res.require_min("T-EXH", 6)
